@@ -137,6 +137,12 @@ func (w *World) shareKind(sender int, id string, raw []byte, kinds []string) str
 			return k
 		}
 	}
+	// "swap" inside a message: the sender's valid share for another identity of the world
+	for o := range w.idBytes {
+		if o != id && string(w.Keys.EpochSecretKeyShare(w.Identity(o), sender).Marshal()) == string(raw) {
+			return "swap"
+		}
+	}
 	return "unknown"
 }
 
